@@ -147,7 +147,10 @@ def heat_capacity(kind, t, v):
 
 
 def build(spec):
-    """spec keys: nq, na, wset, gset, bset, weights, tgrid, vgrid, pkind, cv, gamma_fill, palette"""
+    """spec keys: nq, na, wset, gset, bset, weights, tgrid, vgrid, pkind, cv, gamma_fill, palette; optional "_at": the
+    address (id) at which the calculator-like object should be allocated if the allocator can be brought to hand it out
+    again (process histories in which a later object re-uses the address of a released earlier one)"""
+    shell = _shell(spec.get("_at"))
     nq, na = spec["nq"], spec["na"]
     npm = 3 * na
     laws = mode_laws(nq, npm, spec["wset"], spec["gset"], spec["bset"], spec.get("palette"))
@@ -175,6 +178,7 @@ def build(spec):
     cv = heat_capacity(spec.get("cv", "const"), t, v)
     vb = SimpleNamespace(pressures=p, heat_capacity=cv, v_array=v, t_array=t)
     duck = calculator_like(
+        _shell=shell,
         qha_calculator=SimpleNamespace(volume_base=vb, v_array=v, t_array=t),
         v_array=v, t_array=t, freq_array=freq, mode_gamma=[vdg, gam, gam ** 2],
         qha_input=SimpleNamespace(weights=[((0.0, 0.0, 0.1 * q), w[q]) for q in range(nq)], nq=nq, np=npm, na=na, nv=len(v)),
@@ -183,14 +187,36 @@ def build(spec):
     return duck, laws, w, t, v
 
 
+def _shell(at=None):
+    """an empty Calculator instance; with `at`, allocate instances until the allocator hands out that address again (the
+    others are released afterwards).  Returns None if cij cannot be imported that way."""
+    try:
+        from cij.core.calculator import Calculator
+    except Exception:
+        return None
+    if at is None:
+        return Calculator.__new__(Calculator)
+    keep = []
+    for _ in range(512):
+        o = Calculator.__new__(Calculator)
+        if id(o) == at:
+            del keep
+            return o
+        keep.append(o)
+    o = keep[0]
+    del keep
+    return o
+
+
 def calculator_like(**attrs):
     """A REAL cij Calculator object that has not gone through __init__ (no files): the state a real run would have built
     is set directly.  Helper methods and properties of the class stay available to the code under test, so a refactoring
     that adds one is not a drift of the seam; attributes that the class defines as read-only properties are left to the
     class.  Falls back to a plain namespace if the class cannot be used that way."""
+    shell = attrs.pop("_shell", None)
     try:
         from cij.core.calculator import Calculator
-        obj = Calculator.__new__(Calculator)
+        obj = shell if shell is not None else Calculator.__new__(Calculator)
         obj.__dict__["qha_calculator"] = attrs["qha_calculator"]
         for k, val in attrs.items():
             try:
